@@ -287,7 +287,10 @@ def judge(chk, adv, mark, wire_before, own, label, seqnames, state):
     refused = any(n in ('refuse_own', 'ack_own_end_early', 'sess_term', 'sess_term_reply', 'sess_init_again') for n in seqnames)
     if state in ('pre_contact', 'in_contact'):
         # before the session exists none of these is legitimate: they are rejected and change nothing
-        refused = x.h._state != 'established'
+        # (a SESS_INIT in the sequence establishes the session: what follows it can be legitimate)
+        est = seqnames.index('sess_init_again') if 'sess_init_again' in seqnames else len(seqnames)
+        refused = x.h._state != 'established' or any(
+            n in ('refuse_own', 'ack_own_end_early', 'sess_term', 'sess_term_reply', 'sess_init_again') for n in seqnames[est + 1:])
     if own and not refused and not x.closed():
         succ = [int(tm.arg(a[0])) for (_i, _n, a) in tm.signals(sim, x.name, 'send_bundle_finished') if tm.arg(a[2]) == 'success']
         if sorted(succ) != list(range(1, len(own) + 1)):
